@@ -106,7 +106,7 @@ class struct(_composite_base):
         lhs = getattr(self, name)
         if isinstance(rhs, base_array):
             if codec_kind.is_composite(rhs._TYPE):
-                if rhs._DYNAMIC:
+                if rhs._DYNAMIC or rhs._BOUND:
                     del lhs[:]
                     lhs.extend(rhs[:])
                 else:
